@@ -473,6 +473,9 @@ func (s *Service) prepareProxyRequest(ctx context.Context, r *http.Request, targ
 	if err != nil {
 		return nil, err
 	}
+	// the client's query goes upstream verbatim: re-parsing the URL string would take a "#" in
+	// it for the start of a fragment and cut the query there
+	proxyReq.URL.RawQuery, proxyReq.URL.Fragment, proxyReq.URL.RawFragment = targetURL.RawQuery, "", ""
 
 	// Copy headers
 	headerStart := time.Now()
